@@ -200,9 +200,11 @@ def bulk_data(p, salt=0):
     return _salted(a, salt)
 
 
-def apply_step(step, vals, shared=None, salt=0):
+def apply_step(step, vals, shared=None, salt=0, variant=0):
     """perform one recipe step with pytato; returns the new value.  *salt*
-    != 0 perturbs all wrapped data (one element each)."""
+    != 0 perturbs all wrapped data (one element each); *variant* != 0 adds it
+    to the constant of every scalar step (another graph of the SAME shape:
+    same node kinds, same number of objects, same allocation pattern)."""
     import pytato as pt
     op, a, p = step["op"], [vals[i] for i in step["args"]], step.get("p", {})
     if op == "ph":
@@ -262,6 +264,8 @@ def apply_step(step, vals, shared=None, salt=0):
         return getattr(pt, op)(a[0], a[1])
     if op == "scalar":
         c = complex(*p["c"]) if isinstance(p["c"], list) else p["c"]
+        if variant:
+            c = c + variant
         if p.get("ctype"):
             # a numpy-typed scalar (kept as such inside the expression)
             c = getattr(np, p["ctype"])(c)
@@ -393,7 +397,7 @@ def apply_step(step, vals, shared=None, salt=0):
     raise ValueError(op)
 
 
-def build(recipe, shared=None, salt=0):
+def build(recipe, shared=None, salt=0, variant=0):
     """-> (values, outputs).  outputs: DictOfNamedArrays (or a single Array if
     recipe['single']).  *shared*: dict step id -> DataWrapper to reuse.
     *salt*: see apply_step."""
@@ -401,7 +405,7 @@ def build(recipe, shared=None, salt=0):
     vals: list = []
     for i, step in enumerate(recipe["steps"]):
         step = dict(step, id=i)
-        vals.append(apply_step(step, vals, shared, salt))
+        vals.append(apply_step(step, vals, shared, salt, variant))
     if recipe.get("single"):
         return vals, vals[recipe["outs"][0][1]]
     outs = {name: vals[i] for name, i in recipe["outs"]}
@@ -882,6 +886,11 @@ def gen_recipe(rng: random.Random, profile="any", nsteps=None) -> dict:
             picks.append(ids[-1 - min(int(rng.expovariate(0.9)), len(ids) - 1)])
         else:
             picks.append(rng.choice(ids))
+    if g.bulk:
+        # the bulk data must be live: one wrapped bulk array is an output
+        bulk_ids = [i for i, st in enumerate(g.steps) if st["op"] == "dwgen"]
+        if bulk_ids:
+            picks.append(rng.choice(bulk_ids))
     outs = [[f"out{j}", i] for j, i in enumerate(picks)]
     rec = {"steps": g.steps, "outs": outs, "profile": profile}
     if profile == "any" and rng.random() < 0.15:
